@@ -736,7 +736,16 @@ def canon_ast(fnode, e, at=None, depth=0, _seen=None):
                 el = _elem_expr(lp, n.id)
                 if el is not None:
                     return canon_ast(fnode, ast.parse(ast.unparse(el), mode="eval").body, lp if isinstance(lp, ast.For) else at, depth + 1, seen | {n.id})
+                up = _unpack_of(fnode, n.id)
+                if up is not None:
+                    return ast.parse("(" + ", ".join(up) + ")", mode="eval").body
                 return n
+            # `(a, b, c) = n` (unpacked exactly once, names not re-bound): n is the tuple of its parts
+            up = _unpack_of(fnode, n.id)
+            if up is not None and lp is None:
+                lp2 = None
+            if up is not None:
+                return ast.parse("(" + ", ".join(up) + ")", mode="eval").body
             v = single_def(fnode, n.id)
             if v is not None and _inlinable(fnode, v) and not (isinstance(v, ast.Name) and v.id == n.id):
                 st = next((s for s, vv in assignments_to(fnode, n.id) if vv is v), None)
@@ -766,6 +775,23 @@ def canon_ast(fnode, e, at=None, depth=0, _seen=None):
     # positions of the re-parsed tree are meaningless: loop look-ups use `at`
     out = T().visit(tree)
     return out
+
+
+def _unpack_of(fnode, name):
+    """['a', 'b', 'c'] if the function contains exactly one `(a, b, c) = name` (possibly chained) and a, b, c are bound only there"""
+    hits = []
+    for n in walk_live(fnode):
+        if isinstance(n, ast.Assign) and isinstance(n.value, ast.Name) and n.value.id == name:
+            for t in n.targets:
+                if isinstance(t, (ast.Tuple, ast.List)) and all(isinstance(e, ast.Name) for e in t.elts):
+                    hits.append([e.id for e in t.elts])
+    if len(hits) != 1:
+        return None
+    parts = hits[0]
+    for p in parts:
+        if len(assignments_to(fnode, p)) != 1 or p == "_":
+            return None
+    return parts
 
 
 def _single_expr_helper(fnode, name):
